@@ -326,7 +326,8 @@ def check(ctx):
             srs = [c for c in calls_in(lst.node) if isinstance(c.func, ast.Attribute) and c.func.attr == "set_result" and isinstance(c.func.value, ast.Name) and c.func.value.id == fv]
             ok = len(srs) == 1 and len(srs[0].args) == 1 and isinstance(srs[0].args[0], ast.Name) and srs[0].args[0].id == msgv and not in_loop(srs[0], lst.node)
             ctx.ob("C14-R4", lst.fq, "that future is completed once, with the message of the same frame", ok, node=pcall, construct="set_result(message of the same frame)")
-            guard = any(isinstance(e, ast.Compare) and isinstance(e.ops[0], ast.In) and src(e.left) == idv and src(e.comparators[0]) == TABLE and pol for e, pol in atoms_at(pcall, lst.node))
+            guard = any(isinstance(e, ast.Compare) and src(e.left) == idv and src(e.comparators[0]) == TABLE and
+                        ((isinstance(e.ops[0], ast.In) and pol) or (isinstance(e.ops[0], ast.NotIn) and not pol)) for e, pol in atoms_at(pcall, lst.node))
             ctx.ob("C14-R4", lst.fq, "the pop is guarded by a membership test of the same id", guard or len(pcall.args) == 2, node=pcall, construct="membership test on the received id")
     # who may complete pending futures with a result
     for f in m.funcs.values():
